@@ -1,4 +1,4 @@
-import VtModel.Vpl
+import VtModel.VplSyntax
 /-!
 # Lexical layer of the VPL parser model: whitespace, identifiers, bare and quoted values, arrays, properties
 
@@ -19,26 +19,10 @@ namespace VtModel.Vpl
 
 /-! ## whitespace -/
 
-inductive WsChar where
-  | sp | tab | cr | nl
-deriving Repr, DecidableEq
 
-def WsChar.toChar : WsChar → Char
-  | .sp => ' '
-  | .tab => '\t'
-  | .cr => '\r'
-  | .nl => '\n'
 
-/-- possibly empty whitespace -/
-abbrev Ws := List WsChar
-def Ws.str (w : Ws) : Str := w.map WsChar.toChar
 
-/-- non-empty whitespace -/
-structure Ws1 where
-  head : WsChar
-  tail : Ws
 
-def Ws1.str (w : Ws1) : Str := w.head.toChar :: w.tail.str
 
 theorem isWs_toChar (c : WsChar) : isWs c.toChar = true := by cases c <;> rfl
 
@@ -200,37 +184,16 @@ theorem parseUnquoted_error {i : Str} (h : NW i) : parseUnquoted i = .error := b
 
 /-! ## quoted strings -/
 
-inductive Esc where
-  | bs | quote | n | t
-deriving Repr, DecidableEq
 
-/-- the letter written after the backslash -/
-def Esc.letter : Esc → Char
-  | .bs => '\\' | .quote => '"' | .n => 'n' | .t => 't'
-/-- the character it stands for -/
-def Esc.val : Esc → Char
-  | .bs => '\\' | .quote => '"' | .n => '\n' | .t => '\t'
 
 theorem unesc_letter (e : Esc) : unesc e.letter = some e.val := by cases e <;> rfl
 
-/-- one character of a quoted string as written: raw or escaped -/
-inductive QChar where
-  | raw (c : Char)
-  | esc (e : Esc)
 
-def QChar.str : QChar → Str
-  | .raw c => [c]
-  | .esc e => ['\\', e.letter]
-def QChar.val : QChar → Char
-  | .raw c => c
-  | .esc e => e.val
 /-- raw characters are anything but backslash and double quote (`none_of("\\\"")`) -/
 def QChar.WF : QChar → Prop
   | .raw c => c ≠ '\\' ∧ c ≠ '"'
   | .esc _ => True
 
-def qstr (qs : List QChar) : Str := (qs.map QChar.str).flatten
-def qval (qs : List QChar) : Str := qs.map QChar.val
 
 theorem strLoop_nil (acc : Str) (first : Bool) : strLoop [] acc first = .ok [] acc := by rw [strLoop]
 theorem strLoop_quote (rest acc : Str) (first : Bool) :
